@@ -133,3 +133,16 @@ class GetInstance(Contract):
         Sd, Sm, Pd, Pm = self._tables(st, a)
         return [("nothing-stored", z3.And(Sd == Sd0, Sm == Sm0, Pd == Pd0, Pm == Pm0)),
                 ("lock-released", z3.BoolVal(all(v == 0 for v in st.locks.values())))]
+
+
+@R.lemma("C09:instance-tables-frame", props=("C09",))
+def instance_tables_frame(E):
+    """syntactic frame condition, checked on the AST of the current tree: the daemon's single-instance table (`_pyroInstances`) is created empty in Daemon.__init__ and
+    otherwise WRITTEN only by Daemon._getInstance (which is under contract, with the monitor obligation); the session table of a connection (`pyroInstances`) is created
+    empty in SocketConnection.__init__, written by _getInstance, and dropped in SocketConnection.close - no other function of the package rebinds, deletes or mutates either
+    table, or lets it escape (pure reads are allowed anywhere; a helper called only from these functions counts as part of them).
+    (Without this, the per-function contract of _getInstance says nothing about what another function does to the tables between two calls.)"""
+    from contracts.frames import frame_obligations
+    frame_obligations(E, "instance tables", {
+        "_pyroInstances": {"Pyro5/server.py:Daemon.__init__", "Pyro5/server.py:Daemon._getInstance"},
+        "pyroInstances": {"Pyro5/socketutil.py:SocketConnection.__init__", "Pyro5/socketutil.py:SocketConnection.close", "Pyro5/server.py:Daemon._getInstance"}})
